@@ -433,6 +433,11 @@ pub fn generate(thorough: bool, seed: u64, out: &mut dyn Write) {
         let s = amplified(vc, lods, shapes, &mut rng);
         emit(out, "mdl", &s.bytes, "");
     }
+    {
+        // corruptions around an amplified model (failures after the memory has been retained)
+        let s = amplified(0xFFFF, 3, true, &mut rng);
+        multi(&s, &mut rng, if thorough { 1500 } else { 30 }, out);
+    }
     // many names that share one long string
     for (filler, extra) in [(60000usize, 2000u16), (60000, 100), (1000, 2000)] {
         let s = model_with_names(false, 1, &[mesh_a(), mesh_b()], 2, true, filler, extra, &mut rng);
